@@ -568,6 +568,49 @@ def nested_streams(W, rec):
             rec.violation("C09/returned-bytes-not-prefix", f"nested + outer reads returned {got!r} of {data[:L]!r}; {case}", case, monitor="model")
 
 
+def request_histories(W, rec):
+    """History on one request object: part of the body is read through request.stream (a hook that sniffs a prefix), the
+    view then sets its own max_content_length, then the rest is read - through the form parser, get_data() or the stream.
+    The server's input holds the bytes of the *next* request behind this body; none of them is ever taken."""
+    from werkzeug.exceptions import HTTPException
+
+    Request = W["Request"]
+    body = b"a=1&b=22&c=333&d=4444"
+    follow = b"POST /next HTTP/1.1\r\n"
+    for already, new_limit, k, use, ct in itertools.product((0, 1, 4, 10), ("same", 8, 18, 100, None), (1, 3, 100), ("form", "get_data", "stream", "values"),
+                                                           ("application/x-www-form-urlencoded", "multipart/form-data; boundary=b", "text/plain")):
+        u = Under(body + follow, k, True, None)
+        env = {"REQUEST_METHOD": "POST", "wsgi.input": u, "CONTENT_LENGTH": str(len(body)), "CONTENT_TYPE": ct, "wsgi.url_scheme": "http", "SERVER_NAME": "h", "SERVER_PORT": "80",
+               "PATH_INFO": "/", "SCRIPT_NAME": "", "QUERY_STRING": ""}
+        r = Request(env)
+        case = {"part": "request-history", "read_before": already, "max_content_length_set_to": new_limit, "k": k, "then": use, "content_type": ct}
+        rec.case()
+        rec.observe("request_histories")
+        rec.nontrivial(("request-history", already, new_limit, k, use, ct))
+        try:
+            if already:
+                r.stream.read(already)
+            if new_limit != "same":
+                r.max_content_length = new_limit
+            if use == "form":
+                r.form, r.files  # noqa: B018
+            elif use == "values":
+                r.values  # noqa: B018
+            elif use == "get_data":
+                r.get_data()
+            else:
+                while r.stream.read(5):
+                    pass
+        except HTTPException:
+            pass
+        except Exception as e:  # noqa: BLE001
+            rec.violation(f"C09/unrelated-exception:{type(e).__name__}", f"{e!r}; {case}", case, monitor="exception-type")
+            continue
+        if u.pos > len(body):
+            rec.violation("C09/over-read-underlying", f"{u.pos} bytes were taken from the server's input, Content-Length is {len(body)} (the rest is the next request); {case}", case, monitor="byte-accounting")
+            return
+
+
 def world():
     from werkzeug import wsgi
     from werkzeug.wrappers import Request
@@ -589,6 +632,7 @@ def run(shard, rec, rng):
         run_input_stream(W, rec)
         text_layers_directly_on_the_stream(W, rec)
         nested_streams(W, rec)
+        request_histories(W, rec)
         reach.finish()
         contracts.report(rec)
         return
